@@ -37,6 +37,12 @@
 //   vec  pushed into a std::vector of adaptors that reallocates; elements 0 and 1 iterated
 //   opt  std::optional moved into another optional, the first reset
 //                                                        -> OW <visits 1> <visits 2 | ->   (each adaptor must show its OWN elements)
+// case:  mi <adaptor en|rv> <kind vec|list|map|fv> <mode l|r> <elems>   — MANUAL iteration over begin()/end() of a stored adaptor
+//   -> MI <pre> <post> <old> <copy1> <copy2> <foreach> [X <eqloop> <distance> <std::copy> <*std::next(begin, n/2)>]
+//   pre: for (it = b; it != e; ++it)   post: for (...; it++)   old: auto o = it++; use *o   copy1/copy2: after n/2 steps the
+//   iterator is copied and both copies are run to the end   foreach: std::for_each(b, e, ..)
+//   X (reverse only: its iterators are std::reverse_iterator, which declare ==, iterator_traits, bidirectional category;
+//   the enumerate iterator declares only *, ++, ++(int), != and no iterator_traits, so nothing more is asked of it)
 // The temporaries of mode r are created inside the range-for statement itself, so that a dangling adaptor is an
 // AddressSanitizer report (observation CRASH(...)).
 #include "common.hpp"
@@ -48,6 +54,7 @@
 #include <array>
 #include <functional>
 #include <initializer_list>
+#include <iterator>
 #include <list>
 #include <map>
 #include <memory>
@@ -555,6 +562,75 @@ template <bool EN> std::string run_owned_kind(const std::string& sc, const std::
     return "BADCASE";
 }
 
+// ---- manual iteration over begin()/end() ----
+template <bool EN, class It> std::string show(It& it)
+{
+    if constexpr (EN) { auto x = *it; return std::to_string(x.index()) + ":" + std::to_string(val(x.value())); }
+    else return std::to_string(val(*it));
+}
+template <bool EN, class Ad> std::string manual(Ad& a, std::size_t n)
+{
+    const std::size_t lim = n + 3;
+    std::string pre, post, old, c1, c2, fe_;
+    std::size_t k = 0;
+    for (auto it = a.begin(); it != a.end(); ++it) { if (k++ > lim) return "RUNAWAY"; join(pre, ",", show<EN>(it)); }
+    k = 0;
+    for (auto it = a.begin(); it != a.end(); it++) { if (k++ > lim) return "RUNAWAY"; join(post, ",", show<EN>(it)); }
+    k = 0;
+    {
+        auto it = a.begin();
+        while (it != a.end()) { if (k++ > lim) return "RUNAWAY"; auto o = it++; join(old, ",", show<EN>(o)); }
+    }
+    {
+        auto it = a.begin();
+        for (std::size_t i = 0; i < n / 2 && it != a.end(); i++) ++it;
+        auto it2 = it;
+        k = 0;
+        while (it != a.end()) { if (k++ > lim) return "RUNAWAY"; join(c1, ",", show<EN>(it)); ++it; }
+        k = 0;
+        while (it2 != a.end()) { if (k++ > lim) return "RUNAWAY"; join(c2, ",", show<EN>(it2)); it2++; }
+    }
+    k = 0;
+    if constexpr (EN)
+        std::for_each(a.begin(), a.end(), [&](auto x) { if (k++ <= lim) join(fe_, ",", std::to_string(x.index()) + ":" + std::to_string(val(x.value()))); });
+    else
+        std::for_each(a.begin(), a.end(), [&](auto& x) { if (k++ <= lim) join(fe_, ",", std::to_string(val(x))); });
+    std::string r = "MI " + dot(pre) + " " + dot(post) + " " + dot(old) + " " + dot(c1) + " " + dot(c2) + " " + dot(fe_);
+    if constexpr (!EN)
+    {
+        std::string eq;
+        k = 0;
+        for (auto it = a.begin(); !(it == a.end()); ++it) { if (k++ > lim) return "RUNAWAY"; join(eq, ",", show<EN>(it)); }
+        auto d = std::distance(a.begin(), a.end());
+        std::vector<int> out;
+        std::transform(a.begin(), a.end(), std::back_inserter(out), [](auto& x) { return val(x); });
+        std::string cp;
+        for (int v : out) join(cp, ",", std::to_string(v));
+        std::string nx = ".";
+        if (n > 0) { auto it = std::next(a.begin(), n / 2); nx = show<EN>(it); }
+        r += " X " + dot(eq) + " " + std::to_string(d) + " " + dot(cp) + " " + nx;
+    }
+    return r;
+}
+template <class Mk> std::string run_manual(bool en, char mode, Mk mk, std::size_t n)
+{
+    using C = decltype(mk());
+    if (mode == 'l')
+    {
+        C c = mk();
+        if (en) { auto a = nl::enumerate(c); return manual<true>(a, n); }
+        auto a = nl::reverse(c);
+        return manual<false>(a, n);
+    }
+    if (mode == 'r')
+    {
+        if (en) { auto a = nl::enumerate(mk()); return manual<true>(a, n); }
+        auto a = nl::reverse(mk());
+        return manual<false>(a, n);
+    }
+    return "BADCASE";
+}
+
 constexpr std::size_t MAXN = 6;
 
 template <std::size_t N> std::string run_arr(bool en, char mode, const Elems& e)
@@ -692,6 +768,23 @@ static std::string run_case(const std::vector<std::string>& w)
                     return run_multi<false>(sc, ha, hb, static_cast<HoldC<K>*>(nullptr), n);
                 }
             });
+        return "BADCASE";
+    }
+    if (w.size() == 5 && w[0] == "mi" && (w[1] == "en" || w[1] == "rv") && w[3].size() == 1)
+    {
+        Elems e;
+        if (w[4] != ".")
+            for (auto& t : vh::split_on(w[4], ',')) e.push_back(std::atoi(t.c_str()));
+        const std::string& k = w[2];
+        bool en = w[1] == "en";
+        char mode = w[3][0];
+        std::size_t n = e.size();
+        if (k == "vec") return run_manual(en, mode, [&e] { return std::vector<int>(e.begin(), e.end()); }, n);
+        if (k == "list") return run_manual(en, mode, [&e] { return std::list<int>(e.begin(), e.end()); }, n);
+        if (k == "map")
+            return run_manual(en, mode, [&e] { std::map<int, int> m; for (std::size_t i = 0; i < e.size(); i++) m.emplace(static_cast<int>(i), e[i]); return m; }, n);
+        if (k == "fv")
+            return run_manual(en, mode, [&e] { nl::fixed_vector<int> v(e.size() + 2); for (int x : e) v.push_back(x); return v; }, n);
         return "BADCASE";
     }
     if (w.size() == 5 && w[0] == "re" && w[3].size() == 1)
